@@ -289,10 +289,10 @@ def specCheck (toks : List String) (reqs : List Req) (clean : Bool := false) : O
             match later.head? with
             | some e =>
               let commit := e.args.getD 1 "" == "1"
-              if commit && e.acked && e.res == ["0"] && r.acked && !visible && !held ((r.res.getD 1 "").toNat!) then return some "committed-txn-hidden"
-              if !commit && visible then return some "aborted-txn-visible"
-              if commit && e.acked && e.res != ["0"] && visible then return some "uncommitted-txn-visible"
-            | none => if visible then return some "uncommitted-txn-visible"
+              if commit && e.acked && e.res == ["0"] && r.acked && !visible && !held ((r.res.getD 1 "").toNat!) then return some ("committed-txn-hidden/" ++ pid)
+              if !commit && visible then return some ("aborted-txn-visible/" ++ pid)
+              if commit && e.acked && e.res != ["0"] && visible then return some ("uncommitted-txn-visible/" ++ pid)
+            | none => if visible then return some ("uncommitted-txn-visible/" ++ pid)
   -- committed offsets: the last acknowledged commit per key, or a later issued one
   let commits := reqs.filter (·.kind == "O")
   let keys := (commits.map fun r => (r.args.getD 0 "", r.args.getD 1 "")).eraseDups
@@ -347,11 +347,21 @@ def traceVerdict (base : FS) (items : List Item) : String :=
 def verdictOf (toks : List String) (reqs : List Req) (skew junk : Bool) (extra : Option String := none) (clean : Bool := false) : String :=
   match (specCheck toks reqs clean).orElse (fun _ => extra) with
   | none => "1"
-  | some kind =>
+  | some kindPid =>
+    let kind := (kindPid.splitOn "/").headD ""
+    let pid := (kindPid.splitOn "/").getD 1 ""
+    -- producers whose transaction was open when an EARLIER generation crashed (no acknowledged EndTxn in that generation):
+    -- recovery aborts such a transaction in memory only, no abort marker reaches the log
+    let lastGen := (reqs.map (·.gen)).foldl max 0
+    let crashAborted := reqs.zipIdx.any fun (r, j) =>
+      r.kind == "P" && r.gen < lastGen && r.args.getD 1 "" == "t" && r.args.getD 2 "" == pid &&
+      !((reqs.drop (j + 1)).any fun e => e.gen == r.gen && e.kind == "E" && e.acked && e.args.head? == some pid)
     -- the two confirmed defects get their stable key only for the clauses they explain
     if skew && ["uncommitted-txn-visible", "aborted-txn-visible", "committed-txn-hidden", "acked-produce-hidden-from-read-committed",
                 "close-restart-differs", "lso-not-at-open-transaction"].contains kind then "0:index-segment-skew-after-torn-append"
     else if junk && kind == "acked-commit-lost" then "0:state-log-torn-tail-kept"
+    else if crashAborted && ["uncommitted-txn-visible", "aborted-txn-visible", "committed-txn-hidden"].contains kind then
+      "0:crash-aborted-txn-has-no-marker"
     else "0:" ++ kind
 
 /-- model tokens followed by the implementation's unmodelled tokens (`d:` `x:`). -/
